@@ -45,16 +45,25 @@ func (storer *InMemoryStorer) GetValues() map[string]Value {
 
 // SetNumberValue stores a number.
 func (storer *InMemoryStorer) SetNumberValue(variableName string, value float64) {
+	if storer.numbers == nil {
+		storer.numbers = map[string]float64{} // zero value of InMemoryStorer
+	}
 	storer.numbers[variableName] = value
 }
 
 // SetBooleanValue stores a boolean.
 func (storer *InMemoryStorer) SetBooleanValue(variableName string, value bool) {
+	if storer.booleans == nil {
+		storer.booleans = map[string]bool{} // zero value of InMemoryStorer
+	}
 	storer.booleans[variableName] = value
 }
 
 // SetStringValue stores a string.
 func (storer *InMemoryStorer) SetStringValue(variableName string, value string) {
+	if storer.strings == nil {
+		storer.strings = map[string]string{} // zero value of InMemoryStorer
+	}
 	storer.strings[variableName] = value
 }
 
